@@ -244,6 +244,9 @@ func (r *Run) Inconclusive(why string) {
 	r.mu.Unlock()
 }
 
+// hardStop is the number of violations after which a run ends at once
+const hardStop = 1000
+
 // Violations returns the number of (unlisted) violations so far
 func (r *Run) Violations() int {
 	r.mu.Lock()
@@ -278,6 +281,23 @@ func (r *Run) Violation(kind string, attrs map[string]string, witness interface{
 		}
 	}
 	r.violations++
+	if r.violations == 1 {
+		// the verdict is already "violated"; the clock below only bounds how long the rest of the
+		// workload may still take on a tree whose defect makes later cases pathological
+		grace := 180 * time.Second
+		if r.Tier == "thorough" {
+			grace = 900 * time.Second
+		}
+		go func() {
+			time.Sleep(grace)
+			r.Finish(fmt.Sprintf("run stopped %v after its first violation; coverage counters are partial", grace))
+		}()
+	}
+	if r.violations == hardStop {
+		// a tree this broken gains nothing from more cases, and some defects make every further
+		// case slower or larger: write the evidence and stop (Finish exits with status 1)
+		go r.Finish(fmt.Sprintf("run stopped early after %d violations; coverage counters are partial", hardStop))
+	}
 	if r.violations > r.maxViolPrint {
 		return true
 	}
